@@ -1,5 +1,5 @@
 /* libc models for the functions CBMC 6.11 has no (usable) body for.
-   Trusted base; validated against glibc by vf/validate_models.py.
+   Trusted base: written from the C11 / glibc documentation of each function and reviewed by hand (they use CBMC intrinsics, so they are not executed natively).
 
    Decimal printing uses an *inverse* model: the digits are chosen
    nondeterministically and constrained by Horner evaluation to denote the
